@@ -20,7 +20,9 @@ spec/Conservation.tla (+ Conservation_MC slices, ConservationTrace).  Directions
                  observation is judged by TLC against the substance order current at that point.
 The dyn slices model-check the action property [][B.c' = B.c]_vars along Euler steps.
 """
+import math
 import random
+from fractions import Fraction
 
 import conservation_common as cc
 import core
@@ -40,9 +42,10 @@ ASSUMPTIONS = [
 
 QUICK = [("build_q", ["GenSubstance", "GenReaction", "Build", "GenFinish"], 160, 12),
          ("inact_q", ["GenReaction", "GenReverse", "Build"], 160, 14),
-         ("third_q", ["GenReaction", "Build"], 160, 9)]
+         ("third_q", ["GenReaction", "Build"], 160, 9),
+         ("frac_q", ["GenReaction", "Build"], 120, 4)]
 THOROUGH = [("build_t", [], None, 400), ("inact_t", [], None, 250), ("build3_t", [], None, 150),
-            ("third_t", [], 30000, 300)]
+            ("third_t", [], 30000, 300), ("frac_t", [], 30000, 300)]
 HIST_QUICK = [("hist_nh_q", ["GenQuery", "GenReorder"], 36)]
 HIST_THOROUGH = [("hist_nh_t", [], 400), ("hist_per_t", [], 400), ("hist_w_t", [], 400), ("hist_nox_t", [], 500)]
 DYN_QUICK = [("dyn_q", ["GenSetState", "GenEulerStep", "GenSafeStep"])]
@@ -71,10 +74,10 @@ def compare_build(case, obs, bv, route):
     if exp["accept"]:
         if obs["raised"]:
             bad.append(("accept", {"raised": True, "exc": obs["exc"], "msg": obs["msg"]}, {"accept": True}))
-        elif bv is None:
-            bad.append(("B", "unencodable", {"B": exp["B"]}))
-        elif bv["keys"] != exp["keys"] or bv["B"] != exp["B"]:
-            bad.append(("B", bv, {"keys": exp["keys"], "B": exp["B"]}))
+        elif bv is None or "bad" in bv:
+            bad.append(("B", bv, {"keys": exp["keys"], "B": exp["Bq"]}))
+        elif bv["keys"] != exp["keys"] or bv["B"] != exp["Bq"]:
+            bad.append(("B", bv, {"keys": exp["keys"], "B": exp["Bq"]}))
     else:
         if not obs["raised"]:
             bad.append(("reject", {"raised": False}, {"accept": False, "violated": exp["anyviol"]}))
@@ -92,9 +95,7 @@ def deep_events(rsys, sysin, exp, rng):
     names = cc.names_of(sysin)
     evs = []
     skips = []
-    N = cc.observe_net(rsys)
-    if N is not None:
-        evs.append({"ev": "NetStoich", "N": N})
+    evs.append(cc.observe_net(rsys))
     # rates on an integer grid (before anything that may refuse the system)
     for _ in range(4):
         cvec = [rng.randint(0, 3) for _ in names]
@@ -104,7 +105,7 @@ def deep_events(rsys, sysin, exp, rng):
             skips.append("rates raised %s" % type(e).__name__)
             continue
         if f is None:
-            skips.append("unencodable rate")
+            evs.append(cc.bad_event("RatesAt", "unencodable rate", c=cvec))
             continue
         evs.append({"ev": "RatesAt", "c": cvec, "f": f})
     # the same question with array-valued concentrations (several states in one call): the values
@@ -127,16 +128,7 @@ def deep_events(rsys, sysin, exp, rng):
         return evs, skips
     if list(odesys.names) != names:
         raise core.MachineryFailure("odesys.names %r differ from the substances given %r" % (odesys.names, names))
-    li = odesys.linear_invariants
-    if li is None:
-        A = []
-    else:
-        A = cc.int_matrix(li.tolist() if hasattr(li, "tolist") else li)
-    inv_names = [int(x) for x in (odesys.linear_invariant_names or [])]
-    if A is None:
-        skips.append("unencodable linear_invariants")
-    else:
-        evs.append({"ev": "BVectors", "B": A, "keys": inv_names, "src": "odesys.linear_invariants"})
+    evs.append(cc.observe_invariants(odesys))
     # analytic eliminations: all (preferred=None), each single substance, pairs
     if extra["linear_dependencies"] is not None:
         prefs = [None] + [[n] for n in names]
@@ -167,7 +159,7 @@ def deep_events(rsys, sysin, exp, rng):
         skips.append("integration failed")
     else:
         evs.append({"ev": "SetState", "c": c0})
-        evs.append({"ev": "Integrated", "dev": cc.observe_drift(res.yout, odesys.names, names, exp["B"], c0),
+        evs.append({"ev": "Integrated", "dev": cc.observe_drift(res.yout, odesys.names, names, exp["Bq"], c0),
                     "nfev": int(res.info.get("nfev", 0))})
     return evs, skips
 
@@ -189,9 +181,10 @@ def variant_trace(case, out):
         alias = dict(zip(cc.names_of(sysin), sysin["aliases"]))
         sysin = dict(sysin, subs=[dict(x, name=alias[x["name"]], label=x["name"]) for x in sysin["subs"]])
     keys = exp["keys"]
+    labels = cc.key_labels(sysin) if form == "string-keys" else None
     if cfg["checked"]:
-        out["bad"] += compare_build(case, obs, cc.observe_bvectors(rsys) if rsys is not None and form not in cc.SORTING_FORMS else
-                                    ({"keys": exp["keys"], "B": exp.get("B")} if rsys is not None else None), route)
+        out["bad"] += compare_build(case, obs, cc.observe_bvectors(rsys, labels) if rsys is not None and form not in cc.SORTING_FORMS else
+                                    ({"keys": exp["keys"], "B": exp.get("Bq")} if rsys is not None else None), route)
         tr = cc.system_events(sysin) + [cc.build_event(obs)]
     else:
         if obs["raised"]:
@@ -204,29 +197,28 @@ def variant_trace(case, out):
             if p != list(range(1, len(p) + 1)):
                 tr.append({"ev": "Reorder", "p": p})
         tr.append({"ev": "Names", "names": list(rsys.substances.keys()), "src": "rsys.substances"})
-        bv = cc.observe_bvectors(rsys)
-        if bv is not None:
-            tr.append(dict(ev="BVectors", src="composition_balance_vectors", **bv))
+        tr.append(cc.observe_bvectors(rsys, labels))
         for strict in (False, True):
             for throw in (False, True):
-                e = cc.observe_check_balance(rsys, strict, throw)
+                e = cc.observe_check_balance(rsys, strict, throw, labels)
                 tr.append(e)
-                ok = (e["raised"] == (throw and not exp["accept"])) and (e["raised"] or e["result"] == exp["accept"])
+                ok = (e["raised"] == (throw and not exp["accept"])) and (e["raised"] or e["result"] == exp["accept"]) \
+                    and (not e["raised"] or e["exc"] == "ValueError")
                 if not ok:
                     out["bad"].append(dict(what="check_balance(strict=%s, throw=%s)" % (strict, throw), route=route,
                                            observed=e, expected={"balanced": exp["accept"]}))
         for i in range(len(sysin["rxns"])):
             for karg in (True, None, list(reversed(keys))[:2]):
-                e = cc.observe_violations(rsys, i, karg, known_keys=keys)
-                if e is not None and e["keys"] is not None:
+                e = cc.observe_violations(rsys, i, karg, known_keys=keys, labels=labels)
+                if e is not None:
                     tr.append(e)
-            e = cc.observe_charge_violation(rsys, i)
-            if e is not None:
-                tr.append(e)
+            if labels is None:     # with string keys there is no key 0 for the charge helper to read
+                tr.append(cc.observe_charge_violation(rsys, i))
     tr.append({"ev": "End"})
     return (route, tr, obs)
 
 
+@cc.guarded
 def replay_case(item):
     case, deep, seed = item
     sysin = case["in"]
@@ -238,7 +230,7 @@ def replay_case(item):
             out["bad"] += compare_build(case, obs, bv, route)
             tr = cc.system_events(sysin) + [cc.build_event(obs)]
             if rsys is not None and bv is not None:
-                tr.append(dict(ev="BVectors", src="composition_balance_vectors", **bv))
+                tr.append(bv)
             tr.append({"ev": "End"})
             out["traces"].append((route, tr, obs))
         out["traces"].append(variant_trace(case, out))
@@ -256,8 +248,7 @@ def replay_case(item):
                     if p:
                         tr.append({"ev": "Names", "names": list(rsys.substances.keys()), "src": "rsys.substances"})
                         bv = cc.observe_bvectors(rsys)
-                        if bv is not None:
-                            tr.append(dict(ev="BVectors", src="composition_balance_vectors", **bv))
+                        tr.append(bv)
                 tr.append({"ev": "End"})
                 out["traces"].append(("text-derived", tr, obs))
             else:
@@ -302,6 +293,7 @@ def lindep_events(odesys, extra, names, prefs, skips, repeat=False, y0=None):
     return evs
 
 
+@cc.guarded
 def replay_hist(item):
     """A history on ONE ReactionSystem object: queries (composition vectors directly, or through a
     freshly built ODE system with every single-substance elimination) interleaved with reorderings
@@ -329,11 +321,8 @@ def replay_hist(item):
             if op["kind"] == "B":
                 tr.append({"ev": "Names", "names": list(rsys.substances.keys()), "src": "rsys.substances"})
                 bv = cc.observe_bvectors(rsys)
-                if bv is not None:
-                    tr.append(dict(ev="BVectors", src="composition_balance_vectors", **bv))
-                N = cc.observe_net(rsys)
-                if N is not None:
-                    tr.append({"ev": "NetStoich", "N": N})
+                tr.append(bv)
+                tr.append(cc.observe_net(rsys))
             else:
                 try:
                     with warnings.catch_warnings():
@@ -343,11 +332,7 @@ def replay_hist(item):
                     out["skips"].append("deep observation raised %s" % type(e).__name__)
                     continue
                 tr.append({"ev": "Names", "names": list(odesys.names), "src": "odesys.names"})
-                li = odesys.linear_invariants
-                A = [] if li is None else cc.int_matrix(li.tolist())
-                if A is not None:
-                    tr.append({"ev": "BVectors", "B": A, "keys": [int(x) for x in (odesys.linear_invariant_names or [])],
-                               "src": "odesys.linear_invariants"})
+                tr.append(cc.observe_invariants(odesys))
                 if extra["linear_dependencies"] is not None:
                     tr += lindep_events(odesys, extra, list(odesys.names), [None] + [[n] for n in odesys.names],
                                         out["skips"])
@@ -369,6 +354,9 @@ def run_hist_slice(ctx, sl, res, n_cases, titems):
     ctx.cases_replayed += len(sel)
     for case, out in zip(sel, outs):
         sysin = case["in"]
+        if "unobservable" in out:
+            unobservable(ctx, "ReactionSystem/history", sysin, out, sl)
+            continue
         ctx.ran(core.stable_hash([cc.names_of(sysin), sysin["lines"], sysin["hist"]]), nontrivial=True)
         for why in out["skips"]:
             ctx.skip(why)
@@ -377,6 +365,13 @@ def run_hist_slice(ctx, sl, res, n_cases, titems):
     if sel:
         ctx.sample({"slice": sl, "substances": cc.names_of(sel[-1]["in"]), "lines": sel[-1]["in"]["lines"],
                     "hist": sel[-1]["in"]["hist"]}, cap=8)
+
+
+def unobservable(ctx, fn, sysin, out, sl, case=None):
+    """TOTAL OBSERVATION: the library returned or raised something the binding layer could not even
+    project - an observation that equals no expectation."""
+    ctx.violation({"fn": fn, "what": "unobservable", "lines": sysin.get("lines"), "slice": sl},
+                  {"direction": "spec->code", "case": case, "observed": out["unobservable"], "expected": "an observable result"})
 
 
 def judge_traces(ctx, items, source):
@@ -408,6 +403,9 @@ def run_slice(ctx, sl, res, n_cases, n_deep, titems, n_rej_traces=None):
     ctx.cases_replayed += len(sel)
     rej_budget = [n_rej_traces]
     for case, out in zip(sel, outs):
+        if "unobservable" in out:
+            unobservable(ctx, "ReactionSystem", case["in"], out, sl, case)
+            continue
         if out["error"]:
             raise core.MachineryFailure(out["error"])
         sysin = case["in"]
@@ -430,7 +428,7 @@ def run_slice(ctx, sl, res, n_cases, n_deep, titems, n_rej_traces=None):
     if acc_sel:
         c = acc_sel[0]
         ctx.sample({"slice": sl, "lines": c["in"]["lines"], "substances": cc.names_of(c["in"]),
-                    "exp": {"accept": True, "keys": c["exp"]["keys"], "B": c["exp"]["B"]}}, cap=8)
+                    "exp": {"accept": True, "keys": c["exp"]["keys"], "B": c["exp"]["Bq"]}}, cap=8)
     rej = [c for c in sel if not c["exp"]["accept"]]
     if rej:
         c = rej[0]
@@ -447,6 +445,7 @@ SEED_LINES = [
     "NaCl -> Na+ + Cl-", "N2 + 3 H2 -> 2 NH3", "Fe+2 + H2O2 -> Fe+3 + OH + OH-",
     "O2 + e- -> O2-", "HO2 -> H+ + O2-", "Cu+2 + NH3 -> CuNH3+2", "Ag+ + Cl- -> AgCl",
     "Fe+3 + SCN- -> FeSCN+2", "2 OH -> H2O2", "H + O2 -> HO2", "H+ + e- -> H",
+    "2 FeO1.5 -> Fe2O3", "4 FeO1.5 -> 4 FeO + O2", "2 Fe0.5O + O2 -> Fe + 2 O2", "CaSO4(H2O)0.5 + H2O -> CaSO4 + H3O1.5",
 ]
 SPECTATORS = ["Ar", "K+", "SO4-2", "He", "Mg+2"]
 SWAPS = {"Fe+3": "Fe+2", "Fe+2": "Fe+3", "H+": "H", "H": "H+", "O2": "O2-", "O2-": "O2", "OH-": "OH", "OH": "OH-",
@@ -504,6 +503,7 @@ def seeded_system(rng):
     return names, rx
 
 
+@cc.guarded
 def run_seeded(item):
     """Build a seeded system from formulas; the trace carries the compositions the library parsed."""
     names, rx, seed = item
@@ -514,13 +514,16 @@ def run_seeded(item):
         substs = [Substance.from_formula(n) for n in names]
     subs_in = []
     for s in substs:
-        comp = []
+        fr = {}
         for k in sorted(s.composition):
-            if not isinstance(k, int) or s.composition[k] != int(s.composition[k]):
+            e = cc.enc_q(s.composition[k])
+            if not isinstance(k, int) or e is None or e[1] > 1000:
                 return None
-            if s.composition[k] != 0:
-                comp.append([k, int(s.composition[k])])
-        subs_in.append({"name": s.name, "comp": comp})
+            fr[k] = Fraction(e[0], e[1])
+        den = 1
+        for v in fr.values():
+            den = den * v.denominator // math.gcd(den, v.denominator)
+        subs_in.append({"name": s.name, "comp": [[k, int(v * den)] for k, v in fr.items() if v != 0], "den": den})
     prim = [2, 3, 5, 7, 11]
     rxns_in, rxns = [], []
     for j, (re_, pr) in enumerate(rx):
@@ -533,11 +536,8 @@ def run_seeded(item):
     tr = cc.system_events(sysin) + [cc.build_event(obs)]
     if rsys is not None:
         bv = cc.observe_bvectors(rsys)
-        if bv is not None:
-            tr.append(dict(ev="BVectors", src="composition_balance_vectors", **bv))
-        N = cc.observe_net(rsys)
-        if N is not None:
-            tr.append({"ev": "NetStoich", "N": N})
+        tr.append(bv)
+        tr.append(cc.observe_net(rsys))
         rng = random.Random(seed)
         for _ in range(3):
             cvec = [rng.randint(0, 2) for _ in names]
@@ -559,11 +559,8 @@ def run_seeded(item):
             tr.append({"ev": "Reorder", "p": [old.index(n) + 1 for n in new]})
             tr.append({"ev": "Names", "names": new, "src": "rsys.substances"})
             bv = cc.observe_bvectors(rsys)
-            if bv is not None:
-                tr.append(dict(ev="BVectors", src="composition_balance_vectors", **bv))
-            N = cc.observe_net(rsys)
-            if N is not None:
-                tr.append({"ev": "NetStoich", "N": N})
+            tr.append(bv)
+            tr.append(cc.observe_net(rsys))
     tr.append({"ev": "End"})
     lines = ["%s -> %s" % (sorted(a.items()), sorted(b.items())) for a, b in rx]
     return names, lines, tr, obs
@@ -596,9 +593,13 @@ def run(ctx):
     outs = ctx.pmap(run_seeded, items)
     n_before = len(titems)
     raised = 0
-    for o in outs:
+    for o, it in zip(outs, items):
+        if isinstance(o, dict) and "unobservable" in o:
+            unobservable(ctx, "ReactionSystem/seeded", {"lines": [str(x) for x in it[1]], "subs": [{"name": n} for n in it[0]]},
+                         o, "seeded")
+            continue
         if o is None:
-            ctx.skip("non-integral composition")
+            ctx.skip("composition not a small rational")
             continue
         names, lines, tr, obs = o
         raised += bool(obs["raised"])
@@ -658,10 +659,9 @@ def replay(ctx, rec):
         new = cc.system_events(sysin) + [cc.build_event(obs)]
         if rsys is not None:
             bv = cc.observe_bvectors(rsys)
-            if bv is not None:
-                new.append(dict(ev="BVectors", src="composition_balance_vectors", **bv))
+            new.append(bv)
             if any(e["ev"] in ("LinDep", "Integrated", "NetStoich", "RatesAt") for e in tr) and not text_route:
-                evs, _ = deep_events(rsys, sysin, {"B": bv["B"] if bv else []}, random.Random(0))
+                evs, _ = deep_events(rsys, sysin, {"Bq": bv.get("B", []) if bv else []}, random.Random(0))
                 # keep the states of the recorded trace where possible
                 new += evs
         new.append({"ev": "End"})
